@@ -174,12 +174,13 @@ Print Assumptions C20_jobs_only_outstanding.
 
 (* ---------------------------------------------------------------------------------------------- *)
 (* goroutines of the `first` strategies and of unblinding: n providers, channel capacity cap, a
-   collector that takes at most k answers; every schedule of provider returns (success or error),
-   sends, receives and the collector's timeout, of any length.  When nothing can move any more, the
+   collector that takes at most k answers (with or without a deadline [t], with or without the
+   "everybody has failed" notice [d]); every schedule of provider returns (success or error), sends,
+   receives, the collector's timeout and notice, of any length.  When nothing can move any more, the
    number of goroutines blocked for ever on the send is exactly max 0 (successful - cap - received). *)
 Theorem C20_senders_terminate :
-  forall n cap k t sch,
-    let s := frun sch (finit n cap k t) in
+  forall n cap k t d sch,
+    let s := frun sch (finit n cap k t d) in
     final s = true -> blocked s = leak_formula (f_succ s) cap (f_recvd s).
 Proof. exact senders_terminate. Qed.
 Print Assumptions C20_senders_terminate.
@@ -187,48 +188,57 @@ Print Assumptions C20_senders_terminate.
 (* capacity >= number of providers (the code as it is now): in no state of any schedule is a
    goroutine that holds an answer unable to send it, and nothing is left blocked at the end. *)
 Theorem C20_senders_never_block :
-  forall n cap k t sch i,
+  forall n cap k t d sch i,
     N.of_nat n <= cap ->
-    let s := frun sch (finit n cap k t) in
+    let s := frun sch (finit n cap k t d) in
     (nth_error (f_snd s) i = Some SReady -> fstep s (Send i) <> None) /\
     (final s = true -> blocked s = 0).
 Proof.
-  intros n cap k t sch i Hn s. split; [apply never_blocked, Hn | apply no_leak_when_cap_ge_n, Hn].
+  intros n cap k t d sch i Hn s. split; [apply never_blocked, Hn | apply no_leak_when_cap_ge_n, Hn].
 Qed.
 Print Assumptions C20_senders_never_block.
 
 (* every schedule, however long, makes at most 2n + k + 1 effective steps: the goroutines end *)
 Theorem C20_fanout_bounded_steps :
-  forall n cap k t sch, (taken fstep sch (finit n cap k t) <= 2 * n + N.to_nat k + 1)%nat.
+  forall n cap k t d sch, (taken fstep sch (finit n cap k t d) <= 2 * n + N.to_nat k + 1)%nat.
 Proof. exact bounded_steps. Qed.
 Print Assumptions C20_fanout_bounded_steps.
 
 (* The tree before the repair (capacity 1): three providers answering at once leave one goroutine
    blocked for ever per call; the collector returned an answer. *)
 Theorem C20_senders_tree_refuted :
-  exists sch, let s := frun sch (finit 3 1 1 true) in
+  exists sch, let s := frun sch (finit 3 1 1 true false) in
     final s = true /\ f_recvd s = 1 /\ blocked s = 1.
 Proof. exists [Return 0 true; Return 1 true; Return 2 true; Send 0; Recv; Send 1; Send 2]. vm_compute. auto. Qed.
 Print Assumptions C20_senders_tree_refuted.
 
-(* the collector: under a deadline it always returns; without one (unblindProposal runs under the
-   job's context) it returns if and only if some relay delivered the block *)
+(* the collector: under a deadline (the `first` strategies) it always returns; without one
+   (unblindProposal runs under the job's context) it always returns too, now that it is told when
+   every relay has given up *)
 Theorem C20_collector_returns :
-  forall n cap k sch, let s := frun sch (finit n cap k true) in final s = true -> f_coll_done s = true.
+  forall n cap k d sch, let s := frun sch (finit n cap k true d) in final s = true -> f_coll_done s = true.
 Proof. exact collector_returns_with_timeout. Qed.
 Print Assumptions C20_collector_returns.
 
-Theorem C20_unblind_collector_partial :
+Theorem C20_unblind_collector_returns :
   forall n cap sch, 0 < cap ->
-    let s := frun sch (finit n cap 1 false) in
+    let s := frun sch (finit n cap 1 false true) in final s = true -> f_coll_done s = true.
+Proof. intros n cap sch H. exact (collector_returns_with_detection n cap sch H). Qed.
+Print Assumptions C20_unblind_collector_returns.
+
+(* The tree before that repair (no notice): the collector returns if and only if some relay
+   delivered the block; with every relay failing it waits for ever. *)
+Theorem C20_unblind_tree_collector :
+  forall n cap sch, 0 < cap ->
+    let s := frun sch (finit n cap 1 false false) in
     final s = true -> (f_coll_done s = false <-> f_succ s = 0).
 Proof. intros n cap sch H. exact (collector_without_timeout n cap sch H). Qed.
-Print Assumptions C20_unblind_collector_partial.
+Print Assumptions C20_unblind_tree_collector.
 
-Theorem C20_unblind_all_fail_refuted :
-  exists sch, let s := frun sch (finit 2 2 1 false) in final s = true /\ collector_stuck s = true.
+Theorem C20_unblind_tree_refuted :
+  exists sch, let s := frun sch (finit 2 2 1 false false) in final s = true /\ collector_stuck s = true.
 Proof. exists [Return 0 false; Return 1 false]. vm_compute. auto. Qed.
-Print Assumptions C20_unblind_all_fail_refuted.
+Print Assumptions C20_unblind_tree_refuted.
 
 (* ---------------------------------------------------------------------------------------------- *)
 (* Non-vacuity: a history satisfying every condition at once, with a skipped epoch, a failed
@@ -246,6 +256,11 @@ Example C20_history_example :
 Proof. vm_compute. repeat split; reflexivity. Qed.
 
 Example C20_fanout_example :
-  let s := scenario 3 3 1 true [FRelease 1 true; FRelease 0 true; FRelease 2 false] in
+  let s := scenario 3 3 1 true false [FRelease 1 true; FRelease 0 true; FRelease 2 false] in
   final s = true /\ blocked s = 0 /\ f_recvd s = 1 /\ f_succ s = 2.
+Proof. vm_compute. auto. Qed.
+
+Example C20_unblind_all_fail_example :
+  let s := scenario 2 2 1 false true [FRelease 0 false; FRelease 1 false] in
+  final s = true /\ f_coll_done s = true /\ f_recvd s = 0.
 Proof. vm_compute. auto. Qed.
